@@ -240,6 +240,73 @@ func funcByValue(t types.Type, depth int) bool {
 	return false
 }
 
+// toRaw re-states llgo's lowering of func VALUES to closure structs (ssa/type_cvt.go cvtType/cvtClosure): it is used ONLY to
+// find the symbol under which a struct with func-typed fields is emitted; keepTags=false drops every tag of a struct that had
+// a field converted, as cvtStruct does on the pinned tree.  A wrong re-statement makes the symbol unfindable, never a finding.
+func toRaw(t types.Type, keepTags bool, depth int) (types.Type, bool) {
+	if depth > 40 {
+		return t, false
+	}
+	switch t := t.(type) {
+	case *types.Signature:
+		conv := func(tu *types.Tuple) *types.Tuple {
+			vs := make([]*types.Var, tu.Len())
+			for i := range vs {
+				r, _ := toRaw(tu.At(i).Type(), keepTags, depth+1)
+				vs[i] = types.NewParam(token.NoPos, nil, "", r)
+			}
+			return types.NewTuple(vs...)
+		}
+		sig := types.NewSignatureType(nil, nil, nil, conv(t.Params()), conv(t.Results()), t.Variadic())
+		return types.NewStruct([]*types.Var{
+			types.NewField(token.NoPos, nil, "$f", sig, false),
+			types.NewField(token.NoPos, nil, "$data", types.Typ[types.UnsafePointer], false)}, nil), true
+	case *types.Pointer:
+		if r, c := toRaw(t.Elem(), keepTags, depth+1); c {
+			return types.NewPointer(r), true
+		}
+	case *types.Slice:
+		if r, c := toRaw(t.Elem(), keepTags, depth+1); c {
+			return types.NewSlice(r), true
+		}
+	case *types.Array:
+		if r, c := toRaw(t.Elem(), keepTags, depth+1); c {
+			return types.NewArray(r, t.Len()), true
+		}
+	case *types.Chan:
+		if r, c := toRaw(t.Elem(), keepTags, depth+1); c {
+			return types.NewChan(t.Dir(), r), true
+		}
+	case *types.Map:
+		k, c1 := toRaw(t.Key(), keepTags, depth+1)
+		e, c2 := toRaw(t.Elem(), keepTags, depth+1)
+		if c1 || c2 {
+			return types.NewMap(k, e), true
+		}
+	case *types.Struct:
+		n := t.NumFields()
+		flds := make([]*types.Var, n)
+		tags := make([]string, n)
+		cvt := false
+		for i := 0; i < n; i++ {
+			f := t.Field(i)
+			tags[i] = t.Tag(i)
+			if r, c := toRaw(f.Type(), keepTags, depth+1); c {
+				f = types.NewField(f.Pos(), f.Pkg(), f.Name(), r, f.Anonymous())
+				cvt = true
+			}
+			flds[i] = f
+		}
+		if cvt {
+			if !keepTags {
+				tags = nil
+			}
+			return types.NewStruct(flds, tags), true
+		}
+	}
+	return t, false
+}
+
 // abiUncommonMethodSet
 func uncommonMethodSet(t types.Type) (ms []meth, ok bool) {
 	switch t := types.Unalias(t).(type) {
@@ -424,9 +491,23 @@ func main() {
 		if unc {
 			pkgpath = uncommonPkgPath(t, jb.Compiling)
 		}
+		// an unnamed struct with tags and a func-typed field: the two candidate symbols of its lowered form
+		rawsyms := "-"
+		if st, ok := t.(*types.Struct); ok {
+			hasTag := false
+			for k := 0; k < st.NumFields(); k++ {
+				hasTag = hasTag || st.Tag(k) != ""
+			}
+			if r1, c := toRaw(st, true, 0); c && hasTag {
+				r2, _ := toRaw(st, false, 0)
+				n1, _ := b.TypeName(r1)
+				n2, _ := b.TypeName(r2)
+				rawsyms = hx(n1) + "," + hx(n2)
+			}
+		}
 		layout := fmt.Sprintf("%s,%d,%d,%d,%s", b01(b.EqualName(t) != ""), b.Align(t), b.FieldAlign(t), b.Size(t), b01(funcByValue(t, 0)))
-		fmt.Fprintf(w, "desc %d %s %s %s %d %s %s %s %d %s M: %s | F: %s | IM: %s | %s | %s\n", i, hx(sym), hx(str), hx(full), uint(b.Kind(t)), flags,
-			b01(unc), hx(pkgpath), x, layout, strings.Join(mparts, " "), strings.Join(fparts, " "), strings.Join(iparts, " "), s.term(t), s.methodsTerm(ms))
+		fmt.Fprintf(w, "desc %d %s %s %s %d %s %s %s %d %s R:%s M: %s | F: %s | IM: %s | %s | %s\n", i, hx(sym), hx(str), hx(full), uint(b.Kind(t)), flags,
+			b01(unc), hx(pkgpath), x, layout, rawsyms, strings.Join(mparts, " "), strings.Join(fparts, " "), strings.Join(iparts, " "), s.term(t), s.methodsTerm(ms))
 	}
 	var paths []string
 	for p := range col.pkgs {
